@@ -4,7 +4,7 @@ import json, subprocess
 
 OPEN = [
   ("KF1", "empty_measurement", ["C04", "C05"],
-   ["state-vs-model:measurement", "reopen-vs-model:measurement"],
+   ["state-vs-model", "reopen-vs-model", "unexpected-exception"],
    "a measurement name '' is written as the reserved word '_none' and read back as '_none' (and an insert(measurement='') argument is ignored): CSV format limitation, repair would change the file format / ~25 'if measurement:' call sites"),
   ("KF2", "none_sentinel_tag_value", ["C04", "C05"],
    ["state-vs-model:tags", "reopen-vs-model:tags"],
